@@ -351,6 +351,21 @@ func genPtrCase(r *rand.Rand, cfg Cfg) Case {
 			}
 			ops = append(ops, fmt.Sprintf("load %d 4", ri), "pgraph")
 			s, m = 4, copyMap(rootMaps[ri])
+			if r.Intn(2) == 0 {
+				// ... and modified a little: the upper nodes are then private, dirty copies with
+				// persisted children below them (an in-place edit before a failing load would show)
+				for j := 0; j < 1+r.Intn(4); j++ {
+					k := pick(r, uni)
+					if v, ok := m[k]; ok && r.Intn(2) == 0 {
+						ops = append(ops, opDel(4, k, v), "pgraph")
+						delete(m, k)
+					} else {
+						v := uint64(3 + r.Intn(2))
+						ops = append(ops, opIns(4, k, v), "pgraph")
+						m[k] = v
+					}
+				}
+			}
 		}
 		var op string
 		switch r.Intn(6) {
